@@ -15,11 +15,13 @@ REGISTRY = {
     "C03": ("A", "vf.harness.C03"),
     "C04": ("A", "vf.harness.C04"),
     "C05": ("A", "vf.harness.C05"),
+    "C06": ("A", "vf.harness.C06"),
     "C07": ("A", "vf.harness.C07", "vf.engine_b.c07"),
     "C08": ("A", "vf.harness.C08"),
     "C09": ("A", "vf.harness.C09"),
     "C12": ("A", "vf.harness.C12"),
     "C13": ("A", "vf.harness.C13"),
+    "C14": ("A", "vf.harness.C14"),
     "C15": ("A", "vf.harness.C15"),
     "C19": ("A", "vf.harness.C19", "vf.engine_b.c19"),
     "C20": ("B", "vf.engine_b.c20"),
